@@ -89,6 +89,20 @@ func (m ImportMatcher) Match(file *ast.File, d data.Data) (_ data.Data, ok bool)
 	return d, false
 }
 
+// matchEach calls try with the result of every way in which an import of
+// the file matches, until try returns true.
+func (m ImportMatcher) matchEach(file *ast.File, d data.Data, try func(data.Data) bool) bool {
+	for _, spec := range file.Imports {
+		if path, err := strconv.Unquote(spec.Path.Value); err != nil || path != m.Path {
+			continue
+		}
+		if md, ok := m.matchSpec(spec, d); ok && try(md) {
+			return true
+		}
+	}
+	return false
+}
+
 // matchSpec matches a single import of m.Path found in the file.
 func (m ImportMatcher) matchSpec(spec *ast.ImportSpec, d data.Data) (_ data.Data, ok bool) {
 	// We need to account for four cases here:
@@ -189,6 +203,25 @@ func (m ImportsMatcher) Match(file *ast.File, d data.Data) (_ data.Data, ok bool
 	return data.WithValue(d, importsKey, importsData{
 		MatchedImports: matchedImports,
 	}), true
+}
+
+// matchEach calls try with the result of every way in which the imports of
+// the file match those of the patch (in the order Match would try them),
+// until try returns true.
+func (m ImportsMatcher) matchEach(file *ast.File, d data.Data, try func(data.Data) bool) bool {
+	var rec func(i int, d data.Data, matched []matchedImport) bool
+	rec = func(i int, d data.Data, matched []matchedImport) bool {
+		if i == len(m.Imports) {
+			return try(data.WithValue(d, importsKey, importsData{
+				MatchedImports: append([]matchedImport(nil), matched...),
+			}))
+		}
+		im := m.Imports[i]
+		return im.matchEach(file, d, func(d data.Data) bool {
+			return rec(i+1, d, append(matched, matchedImport{Path: im.Path, Key: im.key()}))
+		})
+	}
+	return rec(0, d, nil)
 }
 
 type _importsKey string
